@@ -6,7 +6,7 @@ one() {
   d="$1"; tier="$2"
   pid=$(basename "$d" | cut -d- -f1)
   if grep -q '"caught_by": "neutralised by fix' "$d/meta.json"; then echo "skip   $(basename $d) (an a816 fix: commit made this change harmless)"; return; fi
-  if grep -q '"caught_by": "not caught, by design' "$d/meta.json"; then echo "skip   $(basename $d) (not a violation under the recorded interpretation, DESIGN 7.3)"; return; fi
+  if grep -q '"caught_by": "not caught' "$d/meta.json"; then echo "skip   $(basename $d) (not a violation under the recorded interpretation, DESIGN 7.3)"; return; fi
   # the check that is recorded as catching it (the property's own check unless the row names another one first)
   by=$(grep -o '"caught_by": "C[0-9][0-9]' "$d/meta.json" | grep -o 'C[0-9][0-9]$'); [ -n "$by" ] && pid="$by"
   full=$(tools/seedtest.sh "$d" "$pid" "$tier" | head -3)
